@@ -154,6 +154,14 @@ func randomConfig(rng *rand.Rand, quick bool) config {
 
 var opTimeout = tscale.D(10 * time.Second)
 
+// curStall: byte offset at which the network of the current run stalls (-1: it does not)
+var curStall int64 = -1
+
+// rough: channels that end early are ended while their own side is still sending (Free / handler return concurrent with
+// Send).  What such a Send returns is the caller's race; the run is used for its findings only (panics, crashes, hangs of
+// OTHER channels), its trace is not validated.
+var rough = flag.Bool("rough", false, "early ends do not wait for the ending side's own senders (findings only, trace not validated)")
+
 type side struct {
 	run   int
 	rec   *recorder
@@ -182,6 +190,15 @@ func (s *side) sendAll(ch mpx.Channel, c int, n int, closeWithPayload, doClose b
 		wg.Add(1)
 		go func() {
 			defer wg.Done()
+			defer func() {
+				// rough mode: a Send that starts after another goroutine freed the channel is this harness's own race
+				if e := recover(); e != nil {
+					if *rough && strings.Contains(fmt.Sprint(e), "freed channel") {
+						return
+					}
+					s.found("panic:user", fmt.Sprintf("sender goroutine of channel %d panicked: %v", c, e))
+				}
+			}()
 			for {
 				k := int(seq.Add(1))
 				if k > n {
@@ -339,6 +356,17 @@ func runOnce(run int, cfg config, rec *recorder, cutAfter int64, found func(sig,
 		addr = proxy.addr()
 		proxy.onCut = func() { rec.log(Event{E: "fail"}) }
 	}
+	if cutAfter < 0 && curStall >= 0 {
+		// no fault, but the network stalls once for a while after curStall bytes in one direction
+		sp, err := newCutProxy(srv.Addr, curStall, rng.Intn(2) == 0)
+		if err != nil {
+			found("harness", err.Error())
+			return
+		}
+		sp.stall = 250 * time.Millisecond
+		defer sp.close()
+		addr = sp.addr()
+	}
 	lg := mpxh.NewCapLogger()
 	mode := mpx.ClientMode_OnDemand
 	if cutAfter >= 0 && run%2 == 0 {
@@ -366,13 +394,21 @@ func runOnce(run int, cfg config, rec *recorder, cutAfter int64, found func(sig,
 				}
 				return
 			}
-			defer ch.Free()
+			var freeOnce sync.Once
+			defer freeOnce.Do(ch.Free)
 			opened.Add(1)
 			lrng := rand.New(rand.NewSource(cfg.Seed + int64(c)*104729))
 			var w2 sync.WaitGroup
 			w2.Add(1)
 			go func() {
 				defer w2.Done()
+				defer func() {
+					// rough mode: a Send that starts after the other goroutine freed the channel is this harness's own
+					// race (the library answers with its use-after-free panic); everything else is reported
+					if e := recover(); e != nil && !(*rough && strings.Contains(fmt.Sprint(e), "freed channel")) {
+						found("panic:user", fmt.Sprintf("sender goroutine of channel %d panicked: %v", c, e))
+					}
+				}()
 				cliSide.sendAll(ch, c, p.nC, p.withPayload, p.clientCloses, lrng)
 			}()
 			limit := 0
@@ -380,6 +416,10 @@ func runOnce(run int, cfg config, rec *recorder, cutAfter int64, found func(sig,
 				limit = 1
 			}
 			cliSide.recvAll(ch, c, nil, limit)
+			if *rough && limit > 0 {
+				// end the channel while this side's own Sends may still be blocked on the window or the write queue
+				freeOnce.Do(ch.Free)
+			}
 			w2.Wait()
 			if !p.clientCloses {
 				// Free ends the channel from the client side (close without payload)
@@ -467,6 +507,7 @@ func main() {
 	cut := flag.Bool("cut", false, "C09: cut the connection after a byte count chosen per run")
 	cutStep := flag.Int("cutstep", 7, "C09: offsets k = first, first+step, ...")
 	pooltrace := flag.String("pooltrace", "", "C18: record the pool events of the run into this file")
+	stall := flag.Bool("stall", false, "the network stalls once per run for 250 ms after a byte count chosen per run (no fault)")
 	flag.Parse()
 	if *pooltrace != "" {
 		poolrec.Start(60000)
@@ -494,6 +535,13 @@ func main() {
 	for r := 1; r <= *runs; r++ {
 		cfg := randomConfig(rng, true)
 		cutAfter := int64(-1)
+		curStall = -1
+		if *stall {
+			// small write queue and window, so that queues fill up during the stall
+			cfg.Conns = 1
+			cfg.WriteQ = 4096
+			curStall = int64(64 + (r-1)*(*cutStep)*8 + rng.Intn(*cutStep*8))
+		}
 		if *cut {
 			cfg.Chans = 1 + rng.Intn(3)
 			cfg.Conns = 1
